@@ -2,7 +2,7 @@
    Statements only (copied from the lemma libraries); every proof is a bare
    `exact`; see the cited files in coq/proofs for the proofs. *)
 From Coq Require Import List NArith ZArith Bool Arith Sorting.Sorted Sorting.Permutation.
-From D2P Require Import Str Err Xml TableTypes Tables Fmt NumFmt Bullets Merge Collector Walk NumFmtFacts BulletsFacts PropGlue ShapeFacts FrameFacts SeqFacts PyVal Source SourceBase SourceNum SourceFmt SourceForms SourceBullets.
+From D2P Require Import Str Err Xml TableTypes Tables Fmt NumFmt Bullets Merge Collector Walk NumFmtFacts BulletsFacts PropGlue ShapeFacts FrameFacts SeqFacts PyVal Source SourceBase SourceNum SourceFmt SourceForms SourceBullets Paths Package SourceNumbering.
 Import ListNotations.
 Open Scope N_scope.
 
@@ -233,3 +233,11 @@ Theorem C08_source_get_ilvl :
   S_BulletGenerator_get_ilvl self (enc_fel n) = Ok (enc_ostr (child_val_w n s_ilvl)).
 Proof. exact src_get_ilvl. Qed.
 Print Assumptions C08_source_get_ilvl.
+
+(* SOURCE TIE: docx_context.collect_numAttrs as translated from the source text (two nested loops filling a dict of lists of NumIdAttrs, `continue` for a w:num without abstractNumId, KeyError for a dangling one, int() of w:start) returns exactly the model's numbering table numId -> [format, start per level] for every numbering part: the table every marker theorem of C08 takes as given *)
+Theorem C08_source_collect_numAttrs :
+  forall e ks, tree_names_ok 4 (AE e ks) ->
+  S_collect_numAttrs (enc_fel (AE e ks))
+  = match collect_numAttrs (AE e ks) with Ok d => Ok (enc_numtable d) | Err x => Err x end.
+Proof. exact src_collect_numAttrs. Qed.
+Print Assumptions C08_source_collect_numAttrs.
